@@ -153,8 +153,12 @@ theorem visitVarDefI (h : CFI c lvl Inv f g) (v : VarDef) (st : St) (hi : Inv st
     Post Inv f g (varDefNodes v) st (visitVarDef c v st) := by
   rw [visitVarDef, varDefNodes]
   refine visitNodeI h _ _ _ (fun st hi => ?_) st hi (h.inner _ rfl)
-  have key : ∀ st', Inv st' → Post Inv f g [.typeNode v.type] st' (visitNode c (.typeNode v.type) id st') :=
+  have key0 : ∀ st', Inv st' → Post Inv f g [.typeNode v.type] st' (visitNode c (.typeNode v.type) id st') :=
     fun st' hi' => visitNodeI h _ id [] (fun _ hi => Post.nil hi) st' hi' (h.inner _ rfl)
+  have key : ∀ st', Inv st' → Post Inv f g (.typeNode v.type :: dirsNodes v.dirs) st'
+      (visitDirectives c v.dirs (visitNode c (.typeNode v.type) id st')) := fun st' hi' => by
+    have h1 := key0 st' hi'
+    exact h1.append (visitDirectivesI h v.dirs _ h1.1)
   cases hd : v.default with
   | none => simpa using key st hi
   | some d =>
